@@ -20,7 +20,10 @@ Spec:   CimXmlDtdRe.tla     regular-expression terms, derivative matcher and a
 Binding (code -> spec): documents captured from the real code
         * every case enumerated by TLC is concretised (fixed vocabulary,
           lexical case / int-vs-float / list-vs-tuple / positional-vs-keyword
-          randomised) and sent through the real operation method with a
+          randomised; namespaces of every value class plain / empty / with an
+          empty component, in every role: default namespace, `namespace`
+          argument, object names, instance paths, reference values,
+          enumeration contexts) and sent through the real operation method with a
           transport adapter mounted on conn.session,
         * seeded random CIM objects of every kind -> tocimxmlstr(),
         * seeded random operation calls with unusual names / namespaces,
@@ -1436,7 +1439,8 @@ def model_checks(ctx):
     r = ctx.tlc("WireOpsImpl", "WireOpsImpl.cfg",
                 label="request assembly (repaired design) valid for all "
                       "cases, K=2")
-    mc["impl_cases"] = r.distinct
+    # SpecPar: start state + one state per operation + the cases
+    mc["impl_cases"] = r.distinct - 42
     r = ctx.tlc("WireOpsImpl", "WireOpsImplPinned.cfg", must_pass=False,
                 count=False, extra=["-continue"],
                 label="request assembly as in the pinned tree, K=1")
@@ -1608,6 +1612,10 @@ def build_doc(table, optable, seed, recipe):
             if status != 200 or not rbody:
                 return make_event(table, "lsn", label, None,
                                   exc="http%d" % status), None, label
+            # the document a client receives = Content-Length bytes of it
+            cl = hd.get("content-length", "")
+            if cl.isdigit():
+                rbody = rbody[:int(cl)]
             return make_event(table, "lsn", label, rbody), rbody, label
     finally:
         _cim_xml._CDATA_ESCAPING = old
@@ -1828,8 +1836,11 @@ def run(ctx):
         "characters are judged per class (ascii, c1, latin1, bmp, astral / "
         "c0ctl, surrogate, fffe); within a class code points are sampled",
         "targets used for the CIMObject comparison never contain the "
-        "delimiters : . / = , \" \\ (the header syntax would be ambiguous); "
-        "key VALUES are not compared, only namespace, class and key names",
+        "delimiters : . = , \" \\ and '/' only as namespace separator (the "
+        "header syntax would be ambiguous); key VALUES are not compared, "
+        "only namespace (component by component, empty components "
+        "included; slashes around the header's namespace are tolerated), "
+        "class and key names",
         "header bytes are those http.client would send (latin-1); confirmed "
         "on a loopback socket for 3 requests per run",
         "multi-requests, responses of the mock server and pywbem_mock are "
